@@ -577,7 +577,9 @@ func checkVolume(v Volume) (out evid.Outcome) {
 			b = volumeChunk[:v.Tail]
 		}
 		n, err := w.Write(b)
-		if n != len(b) || err != nil {
+		if (n != len(b) && !(v.Method == "HEAD" && n == 0)) || err != nil {
+			// (what Write reports to the caller for a HEAD request - 0 or the
+			// length - is not fixed by the statement, see the main check)
 			return fail(out, "write-result", "write %d of %d bytes returned (%d, %v); %s", i, len(b), n, err, js(v))
 		}
 		total += len(b)
